@@ -29,6 +29,7 @@ import Woodpile.Proofs.EncWorldAnch
 import Woodpile.Proofs.EncWorldCap
 import Woodpile.Proofs.HcobsPanic
 import Woodpile.Proofs.DecGlue
+import Woodpile.Props.C07P
 
 namespace Woodpile.EncWorld
 open Woodpile.Hcobs Woodpile.Iovec Woodpile.Arena
@@ -329,5 +330,360 @@ theorem decCallsB_sim (p : Params) (i : Nat) (calls : List BCall) :
     · rw [k5, bpieces_cons c t, DecProof.calls_append, ← h5]
     · rw [k6, h6, bpieces_cons c t, DecProof.calls_append, ← h5]
       simp [errsOf, List.append_assoc]
+
+/-! ### The decoder session from `Decoder::new()` -/
+
+theorem findSome_id_none_iff (l : List (Option DecErr)) : l.findSome? id = none ↔ l.filterMap id = [] := by
+  induction l with
+  | nil => simp
+  | cons x t ih => cases x <;> simp [ih]
+
+theorem run_empty_appendOnly_bytes (es : List Emit) (h : DecProof.AppendOnly es) :
+    (Pipe.run Pipe.empty (es.map (·.op))).bytes = DecProof.emitBytes es := by
+  rw [Woodpile.Pipe.run_appendOnly_bytes _ _ h]
+  rfl
+
+/-- The decoder object from `Decoder::new()`, any calls, errors or not: never panics; between calls the
+iovec satisfies `IovInv`, nothing is pending, everything buffered is stable, and the bytes drained so far
+followed by the buffered ones are exactly the bytes the pipe-level session emitted (what every call,
+failed or not, pushed); state and errors are the session's. -/
+theorem decSessB_sim (p : Params) (pol : Policy) (tun : Tuning) (calls : List BCall) :
+    ∃ r v, decSessB p pol tun calls = some r ∧ r.w.iov 0 = some v ∧ IovInv r.w v ∧
+      v.hasPending = false ∧ r.w.visible v = r.w.flat v.slices ∧
+      r.drained ++ r.w.flat v.slices = DecProof.emitBytes (Dec.calls p .initial (bpieces calls)).emits ∧
+      r.s = (Dec.calls p .initial (bpieces calls)).st ∧
+      r.errs = errsOf (Dec.calls p .initial (bpieces calls)) := by
+  obtain ⟨r, v, evs, h1, h2, h3, h4, h5, h6⟩ := decCallsB_sim p 0 calls ⟨World.fresh pol tun, .initial, [], []⟩
+    Iov.empty [] [] rfl (simV_fresh pol tun) rfl
+  simp only [List.nil_append] at h4 h6
+  have hao := calls_appendOnly p (bpieces calls) .initial
+  have hlag := Woodpile.Pipe.drain_complete Woodpile.Pipe.empty evs
+  rw [Woodpile.Pipe.total_empty, h4] at hlag
+  have hpend : (runEv Woodpile.Pipe.empty evs).pending = false := by
+    rw [hlag.2]; exact Woodpile.Pipe.pending_run_appendOnly _ _ hao rfl
+  obtain ⟨g1, g2, g3, _⟩ := h3.no_pending hpend
+  refine ⟨r, v, h1, h2, h3.inv, g1, g2, ?_, h5, h6⟩
+  rw [g3, h3.ghost, hlag.1]
+  exact run_empty_appendOnly_bytes _ hao
+
+/-- `Dec.output` (the run that stops at the first `Err`: the convention of C01 / C07) accepts exactly when
+the session has no error and `finish` accepts; the data is then the bytes the session emitted. -/
+theorem output_ok_iff (p : Params) (X : List (Method × List UInt8)) (d : List UInt8) :
+    Dec.output p X = .ok d ↔
+      errsOf (Dec.calls p .initial X) = [] ∧ Dec.finish (Dec.calls p .initial X).st = .ok () ∧
+        d = DecProof.emitBytes (Dec.calls p .initial X).emits := by
+  rw [Woodpile.Props.C07P.output_of_session]
+  unfold Dec.session errsOf
+  simp only
+  cases hfs : (Dec.calls p .initial X).verdicts.findSome? id with
+  | some e =>
+    have : (Dec.calls p .initial X).verdicts.filterMap id ≠ [] := by
+      intro h; rw [← findSome_id_none_iff] at h; rw [h] at hfs; cases hfs
+    simp [this]
+  | none =>
+    have h0 := (findSome_id_none_iff _).1 hfs
+    simp only [h0, true_and]
+    cases hf : Dec.finish (Dec.calls p .initial X).st with
+    | error e => simp
+    | ok u =>
+      cases u
+      simp only [Except.ok.injEq, true_and]
+      rw [run_empty_appendOnly_bytes _ (calls_appendOnly p X .initial)]
+      exact eq_comm
+
+/-! ### The encoder over the vocabulary with `Read` drains -/
+
+def encCallB (p : Params) (i : Nat) (r : Run) : BCall → Option Run
+  | .a c => encCallA p i r c
+  | .rd k => (readDrain r.w i k).map fun x => ⟨x.1, r.e, r.drained ++ x.2⟩
+
+def encCallsB (p : Params) (i : Nat) : Run → List BCall → Option Run
+  | r, [] => some r
+  | r, c :: t =>
+    match encCallB p i r c with
+    | none => none
+    | some r' => encCallsB p i r' t
+
+/-- `Encoder::new` followed by any calls. -/
+def encPrefixB (p : Params) (pol : Policy) (tun : Tuning) (calls : List BCall) : Option Run :=
+  match encInit p (World.fresh pol tun) 0 with
+  | none => none
+  | some (w1, e1) => encCallsB p 0 ⟨w1, e1, []⟩ calls
+
+/-- `Encoder::new()`, the calls, `Encoder::finish()`: the final world and the drained bytes. -/
+def encRunB (p : Params) (pol : Policy) (tun : Tuning) (calls : List BCall) : Option (World × List UInt8) :=
+  match encPrefixB p pol tun calls with
+  | none => none
+  | some r => (encFinish p r.w 0 r.e).map fun w' => (w', r.drained)
+
+/-- The vocabulary of `Proofs/EncWorldAnch.lean` embedded. -/
+theorem encCallsB_a (p : Params) (i : Nat) (calls : List ACall) (r : Run) :
+    encCallsB p i r (calls.map .a) = encCallsA p i r calls := by
+  induction calls generalizing r with
+  | nil => rfl
+  | cons c t ih =>
+    simp only [List.map_cons, encCallsB, encCallsA, encCallB]
+    cases encCallA p i r c with
+    | none => rfl
+    | some r' => exact ih r'
+
+theorem encPrefixB_a (p : Params) (pol : Policy) (tun : Tuning) (calls : List ACall) :
+    encPrefixB p pol tun (calls.map .a) = encPrefixA p pol tun calls := by
+  unfold encPrefixB encPrefixA
+  cases encInit p (World.fresh pol tun) 0 with
+  | none => rfl
+  | some x => obtain ⟨w1, e1⟩ := x; exact encCallsB_a p 0 calls _
+
+theorem encRunB_a (p : Params) (pol : Policy) (tun : Tuning) (calls : List ACall) :
+    encRunB p pol tun (calls.map .a) = encRunA p pol tun calls := by
+  unfold encRunB encRunA
+  rw [encPrefixB_a]
+  cases encPrefixA p pol tun calls <;> rfl
+
+theorem binputOf_cons (c : BCall) (t : List BCall) : binputOf (c :: t) = binputOf [c] ++ binputOf t := by
+  rw [show c :: t = [c] ++ t from rfl, binputOf_append]
+
+/-- One call of the vocabulary with `Read` drains keeps the run invariant. -/
+theorem encCallB_sim (p : Params) (hp : p.Valid) (i : Nat) (r : Run) (c : BCall) (input : List UInt8)
+    (acc : List Emit) (hinv : RunInv p i r input acc) :
+    ∃ r' acc', encCallB p i r c = some r' ∧ RunInv p i r' (input ++ binputOf [c]) acc' ∧
+      ∀ Y, Enc.runPieces.go p (bpieces [c] ++ Y) r.e.st r.e.nid acc =
+        Enc.runPieces.go p Y r'.e.st r'.e.nid acc' := by
+  cases c with
+  | a c =>
+    obtain ⟨r', acc', h1, h2, h3⟩ := encCallA_sim p hp i r c input acc hinv
+    refine ⟨r', acc', h1, ?_, ?_⟩
+    · have : binputOf [BCall.a c] = ainputOf [c] := by simp [binputOf, ainputOf, bpieces]
+      rw [this]; exact h2
+    · intro Y
+      have e1 := h3 (Y.map fun x => ACall.call (Call.feed x.1 x.2))
+      rw [apieces_cons, apieces_feeds] at e1
+      have : bpieces [BCall.a c] = apieces [c] := by simp [bpieces]
+      rw [this]; exact e1
+  | rd k =>
+    obtain ⟨w, e, g⟩ := r
+    obtain ⟨v, q, evs, hv, hsim, hq, hev, hrel⟩ := hinv
+    simp only at hv hsim hrel
+    obtain ⟨w', v', h1, h2, h3, _, _⟩ := readDrain_sim i k hv hsim
+    refine ⟨⟨w', e, g ++ (w.visible v).take k⟩, acc, by simp only [encCallB, h1, Option.map_some], ?_,
+      fun Y => rfl⟩
+    refine ⟨v', _, evs ++ [.drain (min k (w.visible v).length)], h2, h3, ?_, ?_, ?_⟩
+    · rw [Woodpile.Pipe.runEv_append, ← hq]; rfl
+    · rw [Woodpile.Pipe.prodOps_append, hev]; simp [prodOps]
+    · have : binputOf [BCall.rd k] = [] := rfl
+      rw [this, List.append_nil, Woodpile.Pipe.consume_total]; exact hrel
+
+/-- Any calls keep the run invariant; the emits of the calls are a prefix of the emits of any continuation. -/
+theorem encCallsB_go (p : Params) (hp : p.Valid) (i : Nat) (calls : List BCall) :
+    ∀ (r : Run) (input : List UInt8) (acc : List Emit), RunInv p i r input acc →
+    ∃ r' acc', encCallsB p i r calls = some r' ∧ RunInv p i r' (input ++ binputOf calls) acc' ∧
+      ∀ Y, Enc.runPieces.go p (bpieces calls ++ Y) r.e.st r.e.nid acc = Enc.runPieces.go p Y r'.e.st r'.e.nid acc' := by
+  induction calls with
+  | nil =>
+    intro r input acc h
+    exact ⟨r, acc, rfl, by simpa [binputOf, bpieces] using h, fun Y => rfl⟩
+  | cons c t ih =>
+    intro r input acc h
+    obtain ⟨r1, acc1, h1, h2, h3⟩ := encCallB_sim p hp i r c input acc h
+    obtain ⟨r2, acc2, k1, k2, k3⟩ := ih r1 _ acc1 h2
+    refine ⟨r2, acc2, by simp [encCallsB, h1, k1], ?_, ?_⟩
+    · rw [binputOf_cons, ← List.append_assoc]; exact k2
+    · intro Y
+      rw [bpieces_cons, List.append_assoc, h3]; exact k3 Y
+
+/-- `Encoder::new` followed by any calls (all input methods, all drains): never panics; the invariant
+holds between calls. -/
+theorem encPrefixB_inv (p : Params) (hp : p.Valid) (pol : Policy) (tun : Tuning) (calls : List BCall) :
+    ∃ r acc, encPrefixB p pol tun calls = some r ∧ RunInv p 0 r (binputOf calls) acc ∧
+      Enc.runPieces p (bpieces calls) = acc ++ Enc.finish p r.e.st := by
+  obtain ⟨w1, e1, h1, h2, h3, h4⟩ := encInit_sim p pol tun
+  obtain ⟨r, acc, k1, k2, k3⟩ := encCallsB_go p hp 0 calls ⟨w1, e1, []⟩ [] _ h2
+  refine ⟨r, acc, by simp only [encPrefixB, h1, k1], by simpa using k2, ?_⟩
+  have := k3 []
+  simp only [List.append_nil] at this
+  rw [h3, h4] at this
+  exact this
+
+/-- The whole run. -/
+theorem encRunB_sim (p : Params) (hp : p.Valid) (pol : Policy) (tun : Tuning) (calls : List BCall) :
+    ∃ w' v' dr evs, encRunB p pol tun calls = some (w', dr) ∧ w'.iov 0 = some v' ∧ IovInv w' v' ∧
+      prodOps evs = (Enc.runPieces p (bpieces calls)).map (·.op) ∧
+      absCells w' v' = (runEv Woodpile.Pipe.empty evs).cells ∧
+      dr = (runEv Woodpile.Pipe.empty evs).consumed ∧
+      v'.hasPending = false ∧ dr ++ w'.flat v'.slices = Spec.encode p (binputOf calls) ∧
+      w'.visible v' = w'.flat v'.slices := by
+  obtain ⟨r, acc, h1, h2, h3⟩ := encPrefixB_inv p hp pol tun calls
+  obtain ⟨w', v', evs, k1, k2, k3, k4, k5, k6, k7, k8, k9⟩ := encFinish_sim p hp 0 r _ acc h2
+  refine ⟨w', v', r.drained, evs, ?_, k2, k3, by rw [h3]; exact k4, k5, k6, k7, k8, k9⟩
+  simp only [encRunB, h1, k1, Option.map_some]
+
+/-- Structural lag of the encoder between calls (as `enc_lag_structA`). -/
+theorem enc_lag_structB (p : Params) (hp : p.Valid) (pol : Policy) (tun : Tuning) (calls : List BCall) :
+    ∃ r v e s c, encPrefixB p pol tun calls = some r ∧ r.w.iov 0 = some v ∧ IovInv r.w v ∧
+      e ∈ v.backrefs ∧ e.2.len = r.e.st.brLen ∧
+      v.slices[e.2.sliceIndex - v.consumedSlices]? = some s ∧ s.region = .chunk c ∧
+      e.2.begin + r.e.st.brLen ≤ s.len ∧
+      v.totalSize - (r.w.visible v).length = e.2.begin + r.e.st.brLen + r.e.st.cur ∧
+      1 ≤ r.e.st.brLen ∧ r.e.st.brLen ≤ 2 ∧
+      r.e.st.cur + (if r.e.st.mid then 1 else 0) < r.e.st.maxChunk ∧
+      (r.e.st.maxChunk = p.maxInit ∨ r.e.st.maxChunk = p.maxSub) := by
+  obtain ⟨r, acc, h1, ⟨v, q, evs, hv, hsim, _, _, hrel⟩, _⟩ := encPrefixB_inv p hp pol tun calls
+  obtain ⟨hi1, _⟩ := fold_init_inv p hp (binputOf calls)
+  generalize (binputOf calls).foldl (byteStep p) BS.init = σ at hrel hi1
+  obtain ⟨hmax, hcur, hmid, hbr, hnid, hq⟩ := hrel
+  have hk : 1 ≤ r.e.st.brLen ∧ r.e.st.brLen ≤ 2 := by cases hf : σ.first <;> simp [hbr, hf]
+  have hcells := cells_of_total_pipeOf q σ.done σ.body r.e.st.brLen r.e.st.backref hk.1 hq
+  have hm : Cell.hole r.e.st.backref ∈ q.cells := by
+    rw [hcells]
+    simp only [List.mem_append, List.mem_replicate]
+    exact Or.inl (Or.inr ⟨by omega, trivial⟩)
+  obtain ⟨e, _, he, hek, hel⟩ := hsim.token _ hm
+  have hcnt : q.cells.count (Cell.hole r.e.st.backref) = r.e.st.brLen := by
+    rw [← count_hole_total, hq, count_hole_pipeOf]
+  have habs : absCells r.w v = (σ.done.drop q.consumed.length).map Cell.byte ++
+      List.replicate r.e.st.brLen (Cell.hole (tokKey r.e.toks r.e.st.backref)) ++ σ.body.map Cell.byte := by
+    rw [hsim.cells, hcells, List.map_append, List.map_append, rename_map_byte, rename_map_byte,
+      rename_replicate_hole]
+  obtain ⟨g1, s, c, g2, g3, g4⟩ := lag_of_single_hole hsim.inv _ _ _ _ hk.1 habs e he hek (by rw [hel, hcnt])
+  have hinv' : σ.eff.length < Spec.limit p σ.first := hi1
+  have hM : σ.M p = Spec.limit p σ.first := rfl
+  rw [BS.eff_length, ← hmid, ← hcur] at hinv'
+  refine ⟨r, v, e, s, c, h1, hv, hsim.inv, he, by rw [hel, hcnt], g2, g3, g4, ?_, hk.1, hk.2, by omega, ?_⟩
+  · rw [g1, hcur]
+  · cases hf : σ.first
+    · right; rw [hmax, hM, hf]; rfl
+    · left; rw [hmax, hM, hf]; rfl
+
+/-- C09's prefix clause on the structural iovec, `Read` drains included (as `enc_prefix_struct`). -/
+theorem enc_prefix_structB (p : Params) (hp : p.Valid) (pol : Policy) (tun : Tuning) (c1 c2 : List BCall) :
+    ∃ r v, encPrefixB p pol tun c1 = some r ∧ r.w.iov 0 = some v ∧ IovInv r.w v ∧
+      r.drained ++ r.w.visible v <+: Spec.encode p (binputOf (c1 ++ c2)) := by
+  obtain ⟨w1, e1, h1, h2, h3, h4⟩ := encInit_sim p pol tun
+  obtain ⟨r, acc, k1, k2, k3⟩ := encCallsB_go p hp 0 c1 ⟨w1, e1, []⟩ [] _ h2
+  obtain ⟨v, q, evs, hv, hsim, hq, hev, _⟩ := k2
+  refine ⟨r, v, by simp only [encPrefixB, h1, k1], hv, hsim.inv, ?_⟩
+  have hvis : r.w.visible v <+: q.stable := by
+    have hc := absCells_visible hsim.inv
+    rw [hsim.cells] at hc
+    have := Pipe.stable_of_cells ⟨q.cells.map (renameCell (tokKey r.e.toks)), [], 0⟩ (r.w.visible v) _ hc
+    simp only [Pipe.stable] at this
+    rw [stable_rename] at this
+    exact ⟨_, this.symm⟩
+  have hgo := k3 (bpieces c2)
+  simp only at hgo
+  rw [h3, h4] at hgo
+  obtain ⟨t, ht⟩ := go_prefix p (bpieces c2) r.e.st r.e.nid acc
+  have hrun : Enc.runPieces p (bpieces (c1 ++ c2)) = acc ++ t := by
+    rw [bpieces_append]
+    exact hgo.trans ht
+  have hpre := Woodpile.Pipe.drain_prefix Pipe.empty evs ((t.map (·.op)).map Ev.prod)
+  rw [Woodpile.Pipe.total_empty, Woodpile.Pipe.prodOps_append, prodOps_prods, hev, ← List.map_append, ← hrun, ← hq] at hpre
+  have hspec := (Woodpile.Props.C01.enc_impl_refines_spec p hp (bpieces (c1 ++ c2))).1
+  unfold Enc.output at hspec
+  rw [hspec] at hpre
+  rw [hsim.ghost]
+  refine List.IsPrefix.trans ?_ hpre
+  obtain ⟨x, hx⟩ := hvis
+  exact ⟨x, by rw [← hx, List.append_assoc]⟩
+
+/-! ### The capacity invariant (`Proofs/EncWorldCap.lean`) over the vocabulary with `Read` drains -/
+
+theorem readInto_cap {T : Tuning} {S i : Nat} (fuel : Nat) : ∀ (w w' : World) (room : Nat) (acc out : List UInt8),
+    CapW T S i w → World.readInto fuel w i room acc = some (w', out) → CapW T S i w' := by
+  induction fuel with
+  | zero =>
+    intro w w' room acc out hw h
+    simp only [World.readInto, Option.some.injEq, Prod.mk.injEq] at h
+    rw [← h.1]; exact hw
+  | succ fuel ih =>
+    intro w w' room acc out hw h
+    rw [World.readInto] at h
+    by_cases hr : room = 0
+    · rw [if_pos hr] at h
+      simp only [Option.some.injEq, Prod.mk.injEq] at h
+      rw [← h.1]; exact hw
+    · rw [if_neg hr] at h
+      cases hv : w.iov i with
+      | none => rw [hv] at h; cases h
+      | some v =>
+        rw [hv] at h
+        simp only at h
+        cases hs : v.stableCount with
+        | none => rw [hs] at h; cases h
+        | some n =>
+          rw [hs] at h
+          simp only at h
+          cases hh : (v.slices.take n).head? with
+          | none =>
+            rw [hh] at h
+            simp only [Option.some.injEq, Prod.mk.injEq] at h
+            rw [← h.1]; exact hw
+          | some s0 =>
+            rw [hh] at h
+            simp only at h
+            cases ha : w.advance i (min s0.len room) with
+            | none => rw [ha] at h; cases h
+            | some x =>
+              obtain ⟨w1, n1⟩ := x
+              rw [ha] at h
+              exact ih w1 w' _ _ out (advance_cap _ n1 hw ha) h
+
+/-- The requests of a call list: every anchored read asks for at most `B` bytes. -/
+def ReadsLeB (B : Nat) : List BCall → Prop
+  | [] => True
+  | .a (.call _) :: t => ReadsLeB B t
+  | .a (.read count _ _ _) :: t => count ≤ B ∧ ReadsLeB B t
+  | .rd _ :: t => ReadsLeB B t
+
+theorem encCallsB_cap {T : Tuning} {B S : Nat} (hH : Hint T B S) (hB2 : 2 ≤ B) (p : Params) (hsub : p.maxSub ≤ B)
+    (i : Nat) (calls : List BCall) :
+    ∀ (r r' : Run), ReadsLeB B calls → CapW T S i r.w → max 1 r.e.st.maxChunk ≤ B →
+      encCallsB p i r calls = some r' → CapW T S i r'.w := by
+  induction calls with
+  | nil =>
+    intro r r' _ hw _ h
+    simp only [encCallsB, Option.some.injEq] at h
+    subst h; exact hw
+  | cons c t ih =>
+    intro r r' hc hw hm h
+    simp only [encCallsB] at h
+    cases h1 : encCallB p i r c with
+    | none => rw [h1] at h; cases h
+    | some r1 =>
+      rw [h1] at h
+      cases c with
+      | a c =>
+        have hc1 : ReadsLe B [c] ∧ ReadsLeB B t := by
+          cases c with
+          | call c => exact ⟨trivial, hc⟩
+          | read count attempts src script => exact ⟨⟨hc.1, trivial⟩, hc.2⟩
+        obtain ⟨hw1, hm1⟩ := encCallA_cap hH hB2 p hsub i r r1 c hc1.1 hw hm h1
+        exact ih r1 r' hc1.2 hw1 hm1 h
+      | rd k =>
+        simp only [encCallB, readDrain, Option.map_eq_some_iff] at h1
+        obtain ⟨⟨w1, out⟩, hx, rfl⟩ := h1
+        exact ih ⟨w1, r.e, r.drained ++ out⟩ r' hc (readInto_cap (k + 2) r.w w1 k [] out hw hx) hm h
+
+/-- Between the calls of any run on arena tuning `T` (all input methods, all drains), every owned slice of
+the encoder's iovec ends within `S` bytes of the start of its chunk (as `encPrefixA_cap`). -/
+theorem encPrefixB_cap {T : Tuning} {B S : Nat} (hH : Hint T B S) (hB2 : 2 ≤ B) (p : Params)
+    (hinit : p.maxInit ≤ B) (hsub : p.maxSub ≤ B) (pol : Policy) (calls : List BCall) (hc : ReadsLeB B calls) (r : Run)
+    (h : encPrefixB p pol T calls = some r) :
+    ∀ v, r.w.iov 0 = some v → ∀ s ∈ v.slices, ∀ c, s.region = .chunk c → s.off + s.len ≤ S := by
+  have hfresh : CapW T S 0 (World.fresh pol T) :=
+    ⟨rfl, Iov.empty, rfl, ⟨(fun ca h => by cases h), (fun s hs => by cases hs)⟩⟩
+  simp only [encPrefixB] at h
+  cases h0 : encInit p (World.fresh pol T) 0 with
+  | none => rw [h0] at h; cases h
+  | some x =>
+    obtain ⟨w1, e1⟩ := x
+    rw [h0] at h
+    simp only at h
+    obtain ⟨hw1, hm1⟩ := encInit_cap hH hB2 p hinit hfresh h0
+    obtain ⟨_, v', hv', hcap⟩ := encCallsB_cap hH hB2 p hsub 0 calls ⟨w1, e1, []⟩ r hc hw1 hm1 h
+    intro v hv
+    rw [hv'] at hv
+    cases hv
+    exact hcap.slices
 
 end Woodpile.EncWorld
